@@ -1,14 +1,109 @@
 """C31 - binary model files: validation of cross-references, bounds of the loader, save/size/load agreement."""
+import re
+import z3
 from vlib.report import Check
-from contracts import io
+from vlib.symex import Obligation
+from vlib.state import Ptr
+from contracts import io, modeltab
+
+F = 'src/engine/engine_io.c'
+
+
+def _events(res, want_nonnull_result=False):
+    """copy events of the (single) path that returns normally / returns a model."""
+    cands = []
+    for s in res.ret_states:
+        ev = s.ghost.get('$blob', ())
+        rv = s.ghost.get('$ret')
+        if want_nonnull_result and not (isinstance(rv, Ptr) and rv.obj is not None):
+            continue
+        cands.append((s, ev))
+    if len(cands) != 1:
+        return None, None
+    return cands[0]
+
+
+def _field(desc):
+    return desc.split('.', 1)[1] if '.' in desc else desc
+
+
+def mirror(chk, save, load):
+    """load(save(m)): lock-step comparison of the two executions' copy events.  Both sides are gap-free from offset 0
+    (obligations */advances_by_bytes_copied of the two units), so equal item order and equal item lengths give equal
+    offsets by induction; memcpy is a byte copy, so every item read is the item written."""
+    obs = []
+
+    def ob(name, goal, asm=()):
+        obs.append(Obligation('mirror/' + name, list(asm), goal if not isinstance(goal, bool) else z3.BoolVal(goal), 'post'))
+    ss, S = _events(save)
+    ls, L = _events(load, want_nonnull_result=True)
+    if S is None or L is None:
+        chk.undecided.append('mirror: could not isolate the writing path of mj_saveModel / the success path of mj_loadModelBuffer')
+        return
+    sizes = modeltab.model_sizes()
+    ns = len(sizes)
+    ob('same_number_of_items', len(S) == len(L) + ns - 1)
+    if len(S) != len(L) + ns - 1:
+        chk.add_obligations(obs)
+        return
+    # header
+    ob('header/same_length', z3.simplify(S[0]['nbytes'] == L[0]['nbytes']))
+    ob('header/at_offset_0', z3.simplify(z3.And(S[0]['buf_off'] == 0, L[0]['buf_off'] == 0)))
+    # sizes: written one by one in MJMODEL_SIZES order, read as one block, assigned back by index
+    blk = L[1]
+    ob('sizes/block_length', z3.simplify(blk['nbytes'] == 8 * ns))
+    M = ls.ghost['$ret'].obj
+    mt = load.exe.tu.ctype('mjModel')
+    subst = []
+    for j, nm in enumerate(sizes):
+        ev = S[1 + j]
+        ob('sizes/%s/written_in_table_order' % nm, _field(ev['field']) == nm and z3.is_true(z3.simplify(ev['nbytes'] == 8)))
+        ob('sizes/%s/written_where_read' % nm, z3.And(ev['buf_off'] == 20 + 8 * j, z3.simplify(blk['buf_off'] == 20)), list(ss.pc))
+        got = z3.simplify(ls.load(Ptr(M, (0,), (nm,), mt.field(nm))))
+        # the loaded model's size field must be exactly element j of the block that was read
+        cell = load.exe.local_objs and None
+        ok = z3.is_app(got) and (('[%d]' % j) in got.decl().name() or (got.decl().kind() == z3.Z3_OP_SELECT and z3.simplify(got.arg(1) == j)))
+        ob('sizes/%s/loaded_from_its_slot' % nm, bool(ok))
+        src_sym = save.pre.load(Ptr(save.params['m'].obj, (0,), (nm,), mt.field(nm)))
+        subst.append((got, src_sym))
+    # structs, flags, arrays
+    for k in range(2, len(L)):
+        se, le = S[k + ns - 1], L[k]
+        nm = _field(le['field'])
+        ob('item/%s/same_item' % nm, _field(se['field']) == nm)
+        lt = z3.substitute(le['nbytes'], *subst) if subst else le['nbytes']
+        ob('item/%s/same_length' % nm, lt == se['nbytes'], [a for a in ss.pc[:len(save.pre.pc)]])
+        ob('item/%s/whole_object' % nm, z3.simplify(z3.And(se['typed_off'] == 0, le['typed_off'] == 0)))
+    # completeness: every member of mjModel is a size, a serialized struct / flag / array, or the buffer pointer itself
+    serialized = set(sizes) | {_field(e['field']) for e in S}
+    members = [f for f, _ in mt.fields]
+    for f in members:
+        if f in ('buffer', 'signature'):
+            continue      # the allocation itself; the compile-time signature is documented as not stored in MJB files
+        ob('complete/%s_is_serialized' % f, f in serialized)
+    chk.add_obligations(obs, {'function': 'mj_saveModel x mj_loadModelBuffer (mirror)', 'file': F, 'status': 'relational obligations over the two symbolic executions',
+                              'obligations': len(obs)})
 
 
 def main():
     chk = Check('C31')
     C = io.contracts()
-    chk.unit('src/engine/engine_io.c', 'mj_validateReferences', C, 'math', 'fp')
+    hooks = {'mj_makeModel': io.make_model_hook}
+    # independent units run in child processes while the save / load executions (whose terms the mirror needs) run here
+    chk.unit_in_child(F, 'mj_validateReferences', C, 'math', 'fp')
+    chk.unit_in_child(F, 'mj_sizeModel', C, 'math', 'fp')
+    save = chk.unit(F, 'mj_saveModel', C, 'math', 'fp', hooks=hooks)
+    load = chk.unit(F, 'mj_loadModelBuffer', C, 'math', 'fp', hooks=hooks)
+    if save is not None and load is not None:
+        mirror(chk, save, load)
     chk.assumptions |= {
         'model invariant: every pointer field of mjModel is an array of the length include/mujoco/mjxmacro.h gives it (re-read every run); sizes are non-negative and below INT_MAX (checked by mj_makeModel)',
         'plugin sensors: mjp_getPluginAtSlot returns a valid plugin and its nsensordata callback has no effect on the model (assumed)',
+        'mj_saveModel / mj_sizeModel: the model is one a buffer of int size can hold (mocap bodies are bodies; every array below 2^31 bytes for mj_sizeModel)',
+        'round trip: memcpy copies bytes exactly, so an item read from the offset and with the length it was written has the written value (contents are not modelled)',
+        'mj_deleteModel, mju_free, mj_version, mju_warning have no effect on the verified state',
     }
+    chk.out_of_reach += ['mj_makeModel body (allocation arithmetic inside one raw buffer, mj_setPtrModel): assumed contract',
+                         'the file-based mj_saveModel / mj_loadModel wrappers (resource providers, C++ VFS)',
+                         'the signature member of mjModel is not stored in MJB files (documented); not part of the mirror']
     return chk.finish()
